@@ -232,7 +232,8 @@ CONFIG["C12"] = {
 }
 CONFIG["C13"] = {
     "level": "other", "proof": True, "rtc": True, "lean": ["lemmas/C13EnumUnique.lean"], "lean_quick": True,
-    "explanation": "Proved: sqra_normalize on csr input (off-diagonal unchanged, diagonal reset, rows sum to zero, frame); "
+    "explanation": "Proved: sqra_normalize on csr and on dense input (off-diagonal unchanged, diagonal reset, rows sum to zero, frame); "
+                   "find_el_within_nested_list (ascending positions of exactly the groups holding the element); "
                    "delete_rate_cells end to end for a csr matrix of any size n and any removal list, no incoming index list: `to_keep` K is "
                    "the strictly ascending complement of the removed rows, the result is |K| x |K| with entry (a,b) = M[K_a,K_b] off the "
                    "diagonal and zero row sums, the returned index list has one group per row and group a = [K_a] (rows and groups "
@@ -245,7 +246,8 @@ CONFIG["C13"] = {
                    "incoming index list, dense inputs.",
     "trusted_base": [SCIPY_SPARSE + "; A[:, idx] / A[idx, :] on csr/csc (selected columns / rows in the order of idx, IndexError outside "
                      "[-dim, dim)), tocsc / tocsr keep the dense view", "library contracts: set(range(n)), set difference, sorted(set) = "
-                     "ascending filter of the range by membership; list(set) = arbitrary order; filtered comprehension = ascending "
+                     "ascending filter of the range by membership; list(set) = arbitrary order; dense ghost row sums (rowsum(np.diag(v)) = v, "
+                     "rowsum(A + B) = rowsum(A) + rowsum(B)); filtered comprehension = ascending "
                      "enumeration of the positions that satisfy the condition; `x in <filter result>` = the defining condition",
                      "ASSUMED callee contracts inside cut_and_merge (bounded-checked): merge_matrix_cells, and delete_rate_cells with "
                      "an incoming index list, return a square matrix and an index list with one group per row"],
